@@ -108,6 +108,11 @@ class Interp:
 
         self.program = program
         self.schema = program.schema
+        from . import freeze as _freeze_mod
+
+        if self.schema is not None and not _freeze_mod.ONEOF_FIELDS:
+            for mname, md in self.schema.messages.items():
+                _freeze_mod.ONEOF_FIELDS[mname] = frozenset(fn for fn, fd in md.fields.items() if fd.oneof)
         self.models = models
         self.decisions: list[int] = list(decisions or [])
         self.pos = 0
@@ -1699,6 +1704,10 @@ class Interp:
             return all(self.truth(self.contains(b, x), "set-eq") for x in a.items)
         if isinstance(a, ExtObj) or isinstance(b, ExtObj):
             return self.models.eq_ext(self, a, b)
+        if isinstance(a, Msg) and isinstance(b, Msg):
+            from .freeze import freeze as _fz
+
+            return a.mtype == b.mtype and _fz(a) == _fz(b)  # protobuf messages compare by content
         if isinstance(a, (ClassInfo, FuncRef, Msg, ADict, AList, ASet, GenObj, ModuleRef)) or isinstance(b, (ClassInfo, FuncRef, Msg, ADict, AList, ASet, GenObj, ModuleRef)):
             return False
         if isinstance(a, (MsgClass, ExtRef, EnumTypeRef)) or isinstance(b, (MsgClass, ExtRef, EnumTypeRef)):
@@ -1985,6 +1994,10 @@ class Interp:
                     return Unknown(("not", r.key), f"not {r!r}")
                 return not r
             return r
+        if isinstance(a, Unknown) and a.positive and isinstance(b, (int, float)) and b <= 0:
+            return op in (ast.Gt, ast.GtE)
+        if isinstance(b, Unknown) and b.positive and isinstance(a, (int, float)) and a <= 0:
+            return op in (ast.Lt, ast.LtE)
         if isinstance(a, Unknown) or isinstance(b, Unknown):
             return Unknown(("cmp", op.__name__, _key(a), _key(b)), f"{a!r} {op.__name__} {b!r}")
         if isinstance(a, SPos) or isinstance(b, SPos):
